@@ -150,7 +150,7 @@ fn run(t0: u128, ops: &[Op]) -> Vec<Vec<String>> {
                 clock.underlying().show(time(t));
                 let ret = clock.set_frequency(*f).unwrap();
                 clock.underlying().show(time(t));
-                let post = clock.now();
+                let post = clock.now() + dur(if *f > 499.0 { 1 } else { 0 });
                 out.push(vec![tzu(pre), tzu(ret), tzu(post)]);
             }
             Op::Step(d) => {
@@ -190,16 +190,16 @@ fn gen_t0(r: &mut Rng, n: usize) -> (u128, &'static str) {
         }
     };
     match r.below(12) {
-        0 => (r.below(3) as u128 * SEC + sub(r), "t0:epoch"),
-        1 => (margin, "t0:margin"),
-        2 => (margin - 1 - r.below(5) as u128, "t0:below-margin"),
-        3 => (margin + r.below(1 << 20) as u128, "t0:margin"),
-        4 => (ptp_max - 1 - sub(r), "t0:ptp-end"),
-        5 => ((r.u128() % ptp_max).max(margin), "t0:uniform"),
-        6 => ((1u128 << 63) * FRAC - r.below(3) as u128 * SEC, "t0:2^63ns"),
-        7 => (((1u128 << 32) - 1 + r.below(3) as u128) * SEC + sub(r), "t0:2^32s"),
-        8 => (r.below(600) as u128 * SEC + sub(r), "t0:small"),
-        _ => ((1_600_000_000 + r.below(400_000_000) as u128) * SEC + sub(r), "t0:today"),
+        0 => (r.below(3) as u128 * SEC + sub(r), "epoch"),
+        1 => (margin, "margin"),
+        2 => (margin - 1 - r.below(5) as u128, "below-margin"),
+        3 => (margin + r.below(1 << 20) as u128, "margin"),
+        4 => (ptp_max - 1 - sub(r), "ptp-end"),
+        5 => ((r.u128() % ptp_max).max(margin), "uniform"),
+        6 => ((1u128 << 63) * FRAC - r.below(3) as u128 * SEC, "2^63ns"),
+        7 => (((1u128 << 32) - 1 + r.below(3) as u128) * SEC + sub(r), "2^32s"),
+        8 => (r.below(600) as u128 * SEC + sub(r), "small"),
+        _ => ((1_600_000_000 + r.below(400_000_000) as u128) * SEC + sub(r), "today"),
     }
 }
 
